@@ -276,6 +276,7 @@ type env struct {
 	chain   func() *middleware.Chain // a chain over the handlers (pooled or fresh)
 	done    func(*middleware.Chain)
 	probes  map[string]*counter // "front", "afterACL", "beforeViews", "afterViews", "beforeCache"
+	ahead   map[string]bool     // probes the real chain placed ahead of the access list
 	cache   *answerer           // handler level only
 	tail    *answerer
 	pipe    *middleware.Pipeline
@@ -361,15 +362,37 @@ func defaultEnv(c *concCfg, scratch string) *env {
 		e.probes[key] = p
 		middleware.RegisterBefore(name, func(*config.Config) middleware.Handler { return p }, before)
 	}
-	add("afterACL", "c17-after-acl", "ratelimit")
+	// probes sit right behind the gate, around views and ahead of the cache, wherever the
+	// registered order puts those three
+	order := middleware.List()
+	next := func(name string) string {
+		for i, n := range order {
+			if n == name && i+1 < len(order) {
+				return order[i+1]
+			}
+		}
+		return ""
+	}
+	add("afterACL", "c17-after-acl", next("accesslist"))
 	add("beforeViews", "c17-before-views", "views")
-	add("afterViews", "c17-after-views", "blocklist")
+	add("afterViews", "c17-after-views", next("views"))
 	add("beforeCache", "c17-before-cache", "cache")
 	front := &counter{name: "c17-front"}
 	e.probes["front"] = front
 	middleware.RegisterAt("c17-front", func(*config.Config) middleware.Handler { return front }, 0)
 	middleware.Setup(cfg)
 	e.pipe = middleware.GlobalPipeline()
+	// "behind the gate" is decided by where the real chain put things
+	pos := map[string]int{}
+	for i, n := range names(e.pipe) {
+		pos[n] = i
+	}
+	e.ahead = map[string]bool{}
+	for k, p := range e.probes {
+		if pos[p.name] < pos["accesslist"] {
+			e.ahead[k] = true
+		}
+	}
 	e.chain = func() *middleware.Chain { return e.pipe.NewChain() }
 	e.done = func(ch *middleware.Chain) { e.pipe.PutChain(ch) }
 	e.cleanup = middleware.Reset
@@ -531,7 +554,7 @@ func judgeClient(res *vh.Result, e *env, c *concCfg, rq *concReq, warm []string,
 			violate(res, key("denied-replied"), "a source outside the access list got a reply ("+rv.text+") "+desc, rp)
 		}
 		for _, k := range behindGate {
-			if d[k] != 0 {
+			if d[k] != 0 && !e.ahead[k] {
 				violate(res, key("denied-downstream-"+k), fmt.Sprintf("a denied query reached %s behind the gate %s", k, desc), rp)
 			}
 		}
@@ -560,7 +583,8 @@ func judgeClient(res *vh.Result, e *env, c *concCfg, rq *concReq, warm []string,
 		violate(res, key("view-skipped"), fmt.Sprintf("the first matching view %d has the record but did not answer (reply: %s) %s views=%+v",
 			wantView, rv.text, desc, c.Views), rp)
 	case rv.n == 0:
-		violate(res, key("allowed-unanswered"), "an allowed query was not answered "+desc, rp)
+		// C17 promises no answer; a silent chain behind an open gate is booked, not judged
+		res.DriftNote("an allowed query was not answered %s", desc)
 	}
 	if rv.from == "views" {
 		res.Count("view_answers", 1)
